@@ -4,7 +4,7 @@
    break - these lemmas. *)
 From Coq Require Import NArith Lia.
 Require Import NX.gen.Consts.
-Open Scope N_scope.
+Local Open Scope N_scope.
 
 Definition encode (wake refs : N) (closed polling : bool) : N :=
   wake * TASK_WAKE_INC + refs * TASK_REF_INC + (if closed then TASK_CLOSED else 0) + (if polling then TASK_POLLING else 0).
